@@ -589,3 +589,70 @@ func c06CodeSpanDriver(x *X, in []byte) {
 	x.Outcome(tree.HashBytes(in))
 	x.Sample(fmt.Sprintf("%q", doc))
 }
+
+// ---- hard and soft line breaks (spec 6.7, 6.8) ---------------------------------------------
+
+var spBreaks = spaces.Space{Name: "X-breaks", Doc: "text, single and double spaces, backslashes, tabs and line endings inside one paragraph",
+	Tokens: []string{"a", " ", "  ", "\\", "\t", "\n"}, Prefix: "x", Suffix: "x\n", Ambiguous: true}
+
+func init() { spaces.All = append(spaces.All, spBreaks) }
+
+// c06BreaksDriver: every line ending inside the paragraph is a hard break when
+// the line ends in two or more spaces or in a backslash that is not itself
+// escaped, and a soft break otherwise (spec 6.7, 6.8); the last line has no break.
+func c06BreaksDriver(x *X, in []byte) {
+	doc := string(in)
+	lines := strings.Split(strings.TrimSuffix(doc, "\n"), "\n")
+	var want []bool
+	for i, l := range lines {
+		if strings.TrimSpace(l) == "" {
+			x.Count("breaks_skipped_blank_line")
+			return
+		}
+		if i == len(lines)-1 {
+			break
+		}
+		n := 0
+		for n < len(l) && l[len(l)-1-n] == '\\' {
+			n++
+		}
+		want = append(want, n%2 == 1 || (n == 0 && strings.HasSuffix(l, "  ")))
+	}
+	for _, v := range append([][]byte{in}, eolVariants(in)...) {
+		blocks, refs := cm.Parse(clone(v))
+		x.Validated()
+		if len(blocks) != 1 || blocks[0].Kind() != cm.ParagraphKind {
+			x.Fail("breaks-not-one-paragraph", "line-break-grammar", v, "%q has no blank line, but parses to %d root blocks (first kind %v)", v, len(blocks), kindOfFirst(blocks))
+			return
+		}
+		out := renderCfg(blocks, refs, cm.SoftBreakPreserve, false)
+		out = strings.ReplaceAll(strings.ReplaceAll(out, "\r\n", "\n"), "\r", "\n")
+		var got []bool
+		for i := 0; i < len(out); {
+			switch {
+			case strings.HasPrefix(out[i:], "<br>"):
+				got = append(got, true)
+				i += 4
+				for i < len(out) && out[i] == '\n' {
+					i++
+				}
+			case out[i] == '\n':
+				got = append(got, false)
+				i++
+			default:
+				i++
+			}
+		}
+		if fmt.Sprint(got) != fmt.Sprint(want) {
+			x.Fail("line-breaks-differ", "line-break-grammar", v, "%q renders %q: line endings are hard breaks %v; spec 6.7 gives %v", v, out, got, want)
+			return
+		}
+	}
+	for _, h := range want {
+		if h {
+			x.Nontrivial()
+		}
+	}
+	x.Outcome(tree.Hash64(fmt.Sprint(want)) ^ tree.HashBytes(in))
+	x.Sample(fmt.Sprintf("%q -> %v", doc, want))
+}
